@@ -39,4 +39,13 @@ impl<'a> WordExpander<'a> {
 #[verifier::external_body]
 pub fn env_update_or_add_array_element(shell: &mut Shell, name: &String, index: String, value: String) -> (r: Result<(), error::Error>) { unimplemented!() }
 #[verifier::external_body]
-pub fn env_update_or_add_scalar(shell: &mut Shell, name: &String, value: String) -> (r: Result<(), error::Error>) { unimplemented!() }
+pub fn env_update_or_add_scalar(shell: &mut Shell, name: &String, value: String, lookup: env::EnvironmentLookup, scope: env::EnvironmentScope) -> (r: Result<(), error::Error>)
+    requires
+        //@ expansion.rs:assign_to_parameter:scalar-writer | C06,C09 the-default-is-assigned-to-the-variable-visible-here-and-a-new-one-is-global
+        lookup is Anywhere && scope is Global,
+{ unimplemented!() }
+pub mod env { use vstd::prelude::*;
+    // projections of env.rs EnvironmentLookup / EnvironmentScope (variants checked at extraction)
+    pub enum EnvironmentLookup { Anywhere, OnlyInGlobal, OnlyInCurrentLocal, OnlyInLocal }
+    pub enum EnvironmentScope { Local, Global, Command }
+}
